@@ -356,7 +356,8 @@ func (fr *Frame) applyContract(st *State, fc *FuncContract, key string, callee *
 		// an intermediate state of the callee (athead(K, .) in its postconditions): existentially quantified for the
 		// caller, i.e. a state about which only the postconditions themselves say anything
 		hs := st.Clone()
-		for hk, srt := range vc.heapSorts {
+		for _, hk := range vc.sortedHeapKeys() {
+			srt := vc.heapSorts[hk]
 			hs.heap[hk] = vc.fresh(hk+"_mid", srt)
 		}
 		anyHeads[k] = hs
@@ -381,7 +382,8 @@ func shortKey(key string) string {
 func (fr *Frame) applyModifies(st *State, fc *FuncContract, env *Env, view string) {
 	vc := fr.vc
 	if fc.ModAll {
-		for k, srt := range vc.heapSorts {
+		for _, k := range vc.sortedHeapKeys() {
+			srt := vc.heapSorts[k]
 			if k == "top" || k == "held" {
 				continue
 			}
@@ -429,7 +431,8 @@ func (fr *Frame) havocTarget(st *State, m Expr, env *Env) (err error) {
 			if _, isVar := env.vars[id.Name]; !isVar && env.pkg != nil {
 				if tn, ok := env.pkg.Scope().Lookup(id.Name).(*types.TypeName); ok {
 					S := tn.Type()
-					for k, srt := range vc.heapSorts {
+					for _, k := range vc.sortedHeapKeys() {
+			srt := vc.heapSorts[k]
 						p := fieldKey(S, x.Name)
 						if k == p || strings.HasPrefix(k, p+".") {
 							st.heap[k] = vc.fresh(k, srt)
@@ -443,7 +446,8 @@ func (fr *Frame) havocTarget(st *State, m Expr, env *Env) (err error) {
 		// pkg.Type.field (that field of every object of a type of another package)
 		if tn := fr.qualifiedTypeName(x.X, env.vars, env.pkg); tn != nil {
 			S := tn.Type()
-			for k, srt := range vc.heapSorts {
+			for _, k := range vc.sortedHeapKeys() {
+			srt := vc.heapSorts[k]
 				p := fieldKey(S, x.Name)
 				if k == p || strings.HasPrefix(k, p+".") {
 					st.heap[k] = vc.fresh(k, srt)
@@ -604,7 +608,8 @@ func (fr *Frame) lockPrimitive(st *State, key string, args []Val, pos token.Pos)
 		// requires the associated lock held; releases and re-acquires it: everything shared may change
 		vc.assumptions["assumed contract: sync.Cond.Wait (monitor havoc of all heap state; lock held before and after)"] = true
 		fr.monitorClauses(st, pos, false)
-		for k, srt := range vc.heapSorts {
+		for _, k := range vc.sortedHeapKeys() {
+			srt := vc.heapSorts[k]
 			if k == "top" || k == "held" || strings.HasPrefix(k, "F:sync.Cond.") {
 				continue
 			}
